@@ -75,6 +75,8 @@ func (j jsonExporter) String(str string) error {
 		switch r {
 		case '"':
 			j.b.WriteString("\\\"")
+		case '\\':
+			j.b.WriteString("\\\\")
 		case '\t':
 			j.b.WriteString("\\t")
 		case '\r':
@@ -82,7 +84,14 @@ func (j jsonExporter) String(str string) error {
 		case '\n':
 			j.b.WriteString("\\n")
 		default:
-			j.b.WriteRune(r)
+			if r < 0x20 {
+				const hex = "0123456789abcdef"
+				j.b.WriteString("\\u00")
+				j.b.WriteByte(hex[r>>4])
+				j.b.WriteByte(hex[r&0xf])
+			} else {
+				j.b.WriteRune(r)
+			}
 		}
 	}
 	j.b.WriteString("\"")
